@@ -232,4 +232,65 @@ theorem ws_applyInner (cmp : Op → A → A → Bool) (hdr : Hdr) (ncs : List (N
   | nil => exact hr
   | cons a ncs ih => exact ih _ (ws_applyOne cmp hdr a r hr)
 
+/-! ### the inner filters commute (a clause's map is recorded in front of the earlier ones) -/
+
+/-- filter the records of the nested cell at position `i`, if there is one -/
+def applyAt (i : Nat) (p : List A → Bool) (r : List (NCell A)) : List (NCell A) :=
+  match r[i]? with
+  | some (.seq rows) => r.set i (.seq (rows.filter p))
+  | _ => r
+
+theorem applyOne_eq (cmp : Op → A → A → Bool) (hdr : Hdr) (nc : Name × RCond A) (r : List (NCell A)) :
+    applyOne cmp hdr nc r =
+      match indexOf? hdr.names nc.1, innerKeys hdr nc.1 with
+      | some i, some keys => applyAt i (fun ir => refCond cmp keys ir nc.2) r
+      | _, _ => r := by
+  unfold applyOne applyAt
+  cases indexOf? hdr.names nc.1 <;> cases innerKeys hdr nc.1 <;> rfl
+
+theorem applyAt_comm (i j : Nat) (p q : List A → Bool) (r : List (NCell A)) :
+    applyAt i p (applyAt j q r) = applyAt j q (applyAt i p r) := by
+  by_cases hij : i = j
+  · subst hij
+    cases hr : r[i]? with
+    | none => simp [applyAt, hr]
+    | some c =>
+      have hi : i < r.length := by
+        rcases Nat.lt_or_ge i r.length with h | h
+        · exact h
+        · rw [List.getElem?_eq_none h] at hr; cases hr
+      cases c with
+      | base a => simp [applyAt, hr]
+      | seq rows =>
+        simp [applyAt, hr, List.getElem?_set_self hi, List.set_set, List.filter_filter, Bool.and_comm]
+  · have hji : j ≠ i := fun e => hij e.symm
+    cases hri : r[i]? with
+    | none =>
+      cases hrj : r[j]? with
+      | none => simp [applyAt, hri, hrj]
+      | some c => cases c <;> simp [applyAt, hri, hrj, List.getElem?_set_ne hji]
+    | some ci =>
+      cases hrj : r[j]? with
+      | none => cases ci <;> simp [applyAt, hri, hrj, List.getElem?_set_ne hij]
+      | some cj =>
+        cases ci <;> cases cj <;>
+          simp [applyAt, hri, hrj, List.getElem?_set_ne hij, List.getElem?_set_ne hji, List.set_comm _ _ hij]
+
+theorem applyOne_comm (cmp : Op → A → A → Bool) (hdr : Hdr) (a b : Name × RCond A) (r : List (NCell A)) :
+    applyOne cmp hdr a (applyOne cmp hdr b r) = applyOne cmp hdr b (applyOne cmp hdr a r) := by
+  simp only [applyOne_eq]
+  cases indexOf? hdr.names a.1 <;> cases innerKeys hdr a.1 <;>
+    cases indexOf? hdr.names b.1 <;> cases innerKeys hdr b.1 <;> simp only
+  exact applyAt_comm _ _ _ _ r
+
+/-- a clause applied to the source row first = applied after the earlier clauses -/
+theorem applyInner_comm (cmp : Op → A → A → Bool) (hdr : Hdr) (ncs : List (Name × RCond A)) (nc : Name × RCond A)
+    (r : List (NCell A)) :
+    applyInner cmp hdr ncs (applyOne cmp hdr nc r) = applyOne cmp hdr nc (applyInner cmp hdr ncs r) := by
+  induction ncs generalizing r with
+  | nil => rfl
+  | cons a ncs ih =>
+    simp only [applyInner]
+    rw [applyOne_comm, ih]
+
 end Pydap.IterNest
